@@ -35,7 +35,7 @@ XI = (0.02, 0.03, 0.04, 0.05)
 NCH = (2, 4, 6)
 BANDS = (4.0, 6.0)
 METHODS = ("EFDD", "FSDD")
-SCALES = (1.0, 1e-6, 1e6)
+SCALES = (1.0, 1e-6, 1e6, 4e-16, 1e15)
 TOL_MAC, TOL_F, TOL_XI, TOL_SCALE = 0.999, 0.025, 0.15, 1e-6
 
 
